@@ -43,9 +43,45 @@ EdgeInv == EdgeRep /\ EdgeEv /\ EdgeLk /\ EdgeOnce
 
 \* the meaning table travels to the harness with the edge dump
 ASSUME PrintT(<<"MEANING", ToJson(Meaning)>>)
+ASSUME PrintT(<<"INIT", ToString(<<InitS.down, InitS.len, {}, {<<<<>>, "none", "", 0>>}, {}, {}, {}, {}, {}, {<<>>}, {}, {}>>)>>)
 
 \* --- edge emission: VIEW hides the observation so that every abstract
 \*     state is expanded once; the action constraint prints every edge ---
 AbsView == <<S, R>>
-Emit == PrintT(<<"EDGE", ToString(<<S, R>>), ToJson(act'), ToString(<<S', R'>>)>>)
+\* Nodes of the replay graph are the implementation-shaped states S: the
+\* reference layer R is history and does not influence what the code does.
+\* TLC prints records in construction order, so the node identity is a
+\* canonical tuple form of S (tuples and sets print canonically).
+CanonS(X) ==
+  << X.down, X.len, X.clients,
+     {<<q, X.store[q].k, X.store[q].v, X.store[q].n>> : q \in DOMAIN X.store},
+     {<<s.id, s.pat, s.kind, s.unique>> : s \in X.subs},
+     {<<id, X.subIds[id]>> : id \in DOMAIN X.subIds},
+     {<<s.id, s.parent>> : s \in X.lsSubs},
+     {<<id, X.lsIds[id]>> : id \in DOMAIN X.lsIds},
+     {<<k, X.locks[k].holder,
+        [i \in 1..Len(X.locks[k].cands) |-> <<X.locks[k].cands[i].c, X.locks[k].cands[i].reqs>>]>> : k \in DOMAIN X.locks},
+     X.lockNodes,
+     {<<c, X.lockedKeys[c]>> : c \in DOMAIN X.lockedKeys},
+     {<<id, X.spub[id]>> : id \in DOMAIN X.spub} >>
+
+\* in the edge dump every S is expanded once (VIEW S), so enabledness must not
+\* depend on the history R
+EnabledE(r) ==
+  /\ ~S.down
+  /\ (NeedConnect /\ HasClient(r) /\ r.op # "connect") => r.c \in S.clients \cup {INT}
+  /\ r.op \in {"sub", "psub", "subls"} => <<r.c, r.tid>> \notin DOMAIN S.subIds \cup DOMAIN S.lsIds
+  /\ r.op \in {"sub", "psub"} => Cardinality(S.subs) < MaxSubs
+  /\ r.op = "subls" => Cardinality(S.lsSubs) < MaxSubs
+  /\ r.op = "connect" => r.c \notin S.clients
+  /\ r.op = "disconnect" => r.c \in S.clients
+  /\ r.op = "spubinit" => <<r.c, r.tid>> \notin DOMAIN S.spub
+NextE == \E r \in Alphabet : EnabledE(r) /\ Step(r)
+SpecE == Init /\ [][NextE]_vars
+ViewE == S
+BoundE ==
+  /\ \A q \in DOMAIN S.store : S.store[q].n <= MaxVer
+  /\ \A c \in DOMAIN S.lockedKeys : Len(S.lockedKeys[c]) <= MaxAcq
+  /\ \A k \in DOMAIN S.locks : \A i \in 1..Len(S.locks[k].cands) : Cardinality(S.locks[k].cands[i].reqs) <= 1
+Emit == PrintT(<<"EDGE", ToString(CanonS(S)), ToJson(act'), ToString(CanonS(S'))>>)
 =============================================================================
